@@ -705,6 +705,14 @@ func (fv *FV) builtin(e *Env, x *ast.CallExpr, name string) Value {
 		return fv.copyBuiltin(e, x, dst, src, rt)
 	case "panic":
 		fv.expr(e, x.Args[0])
+		if fv.spec == nil && fv.u != nil && fv.u.C != nil && fv.u.C.PanicsWhen != nil && !e.dead {
+			cl := fv.u.C.PanicsWhen
+			t := fv.specTermO(e, cl, &specCtx{old: fv.entry, preAlloc: fv.entry.alloc, lenient: true})
+			fv.obligeNamed(e, "panicwhen", fmt.Sprintf("panics:when#%d", fv.siteOrd("panicswhen")), x,
+				fmt.Sprintf("an explicit panic is reached only when %q", cl.Text), t)
+			fv.kill(e)
+			return Value{}
+		}
 		fv.oblige(e, "panic", x, "explicit panic is unreachable", tFalse)
 		fv.kill(e)
 		return Value{}
@@ -1264,6 +1272,8 @@ func (fv *FV) probeClosure(e *Env, lit *ast.FuncLit, cl *Clause, ref Term) {
 	}
 }
 
+const chanSendsComp = "ghost$chanSends"
+
 // probeClosureBody serves `closure N checked`: the literal is handed to a
 // callee that may invoke it any number of times later, so its body is executed
 // once with unconstrained arguments in a copy of the defining environment whose
@@ -1631,6 +1641,9 @@ func (fv *FV) ghostBuiltin(e *Env, x *ast.CallExpr, fn *types.Func) Value {
 		return Value{K: kScalar, T: fv.kvDomArr(e)}
 	case "gh_kvWrites":
 		return Value{K: kScalar, T: fv.loadComp(e, kvWrites, sInt, tNull)}
+	case "gh_chanSends":
+		// number of channel sends the function has performed (plain sends and taken send clauses of select statements)
+		return Value{K: kScalar, T: fv.loadComp(e, chanSendsComp, sInt, tNull)}
 	case "gh_bytesId":
 		v := fv.expr(e, x.Args[0])
 		return Value{K: kScalar, T: fv.bytesID(e, v)}
